@@ -11,7 +11,7 @@ end anonymous
 
 namespace models.ClientConfig
 def IsExpired (now : Nat) (c : Tunnox.C03.ClientConfigT) : Bool :=
-  if ((c.ExpiresAt).isNone || (c.UserID != "")) then
+  if (c.ExpiresAt).isNone then
     false
   else
     (timeAfter now c.ExpiresAt)
